@@ -844,6 +844,47 @@ func init() {
 		}
 		return errnoIface(fr.i, eINVAL)
 	})
+	// syscall.NsecToTimeval(nsec): seconds and microseconds of nsec rounded up to a microsecond, without dividing:
+	// fresh sec, usec, r with sec*1e9 + usec*1000 + r = nsec + 999, usec < 1e6, r < 1000 (nsec >= 0 in the callers).
+	ext("syscall.NsecToTimeval", func(fr *frame, a []value) value {
+		tvT := fr.i.prog.ImportedPackage("syscall").Type("Timeval").Type()
+		tv := zero(tvT).(structure)
+		if !hasSym(a[0], 0) {
+			n := asInt64(a[0]) + 999
+			tv[0], tv[1] = n/1e9, n%1e9/1e3
+			return tv
+		}
+		x := lift(a[0]).t
+		sec := newInput(freshName("tv.sec"), term.BV(64))
+		usec := newInput(freshName("tv.usec"), term.BV(64))
+		r := newInput(freshName("tv.rem"), term.BV(64))
+		addPC(term.Cmp("bvult", usec, term.Const(64, 1000000)))
+		addPC(term.Cmp("bvult", r, term.Const(64, 1000)))
+		addPC(term.Cmp("bvult", sec, term.Const(64, 1<<34)))
+		addPC(term.Cmp("bvult", x, term.Const(64, 1<<62)))
+		lhs := term.Bin("bvadd", term.Bin("bvadd", term.Bin("bvmul", sec, term.Const(64, 1000000000)), term.Bin("bvmul", usec, term.Const(64, 1000))), r)
+		addPC(term.Eq(lhs, term.Bin("bvadd", x, term.Const(64, 999))))
+		tv[0], tv[1] = mkScalar(sec, types.Int64), mkScalar(usec, types.Int64)
+		return tv
+	})
+	// syscall.Futimes(fd, [atime, mtime]): sets the times of the open file itself -- also when its name has been
+	// renamed or removed meanwhile
+	ext("syscall.Futimes", func(fr *frame, a []value) value {
+		f := FS.byFd[int(asInt64(a[0]))]
+		if f == nil || f.closed {
+			return errnoIface(fr.i, eBADF)
+		}
+		tvs := a[1].([]value)
+		if len(tvs) != 2 {
+			return errnoIface(fr.i, eINVAL)
+		}
+		if FS.op("futimes "+f.path, true) {
+			return errnoIface(fr.i, eIO)
+		}
+		m := tvs[1].(structure)
+		f.node.mtime = mkTime(lift(m[0]).t, term.Bin("bvmul", lift(m[1]).t, term.Const(64, 1000)))
+		return nilErr
+	})
 	ext("syscall.Statfs", func(fr *frame, a []value) value {
 		// plenty of space unless the harness says otherwise
 		p := a[1].(*value)
